@@ -131,27 +131,29 @@ def listing(d: Path):
 # ---------------------------------------------------------------------------
 # deterministic PSM tables for the brew-based checks (C02, C05, C07, C08, C11)
 # ---------------------------------------------------------------------------
-def gen_psms(mults, offset=0, file_idx=0, key_cols=2, label_enc="pm1", scan_base=None, pattern=0):
+def gen_psms(mults, offset=0, file_idx=0, key_cols=2, label_enc="pm1", scan_base=None, pattern=0, chimeric=False):
     """One PSM table.  `mults[i]` = number of PSMs of spectrum i; scan numbers start at `offset`
     (changes the crc32 order and therefore which groups sit on fold boundaries).
     Column `f_key` has pairwise distinct values (also across files): it is the row key of the
     recording estimators.  About half of the PSMs are targets scoring above every decoy; the rest
-    are decoys and low targets.  key_cols: 1 scan; 2 +ExpMass; 3 +ret_time; 4 +filename."""
+    are decoys and low targets.  key_cols: 1 scan; 2 +ExpMass; 3 +ret_time; 4 +filename.
+    chimeric: spectra 2k and 2k+1 share scan number and retention time and differ in ExpMass only (one MS2 scan
+    searched with two precursor masses), so only the LAST key column tells them apart."""
     rows = []
     r = 0
     for i, m in enumerate(mults):
-        scan = (scan_base if scan_base is not None else 0) + offset + i
+        scan = (scan_base if scan_base is not None else 0) + offset + (i // 2 if chimeric else i)
         for j in range(m):
             cls = ("H", "D", "H", "L", "H", "D", "H", "H")[(r + pattern) % 8]
             base = {"H": 100.0, "D": 10.0, "L": 10.005}[cls]
             # distinct across files, same class separation; 3 decimals: text round trip is exact
             key = round(base + r * 0.01 + 0.003 * file_idx, 3)
             rows.append(dict(
-                SpecId=f"f{file_idx}_s{scan}_{j}",
+                SpecId=f"f{file_idx}_s{scan}_{j}" if not chimeric else f"f{file_idx}_s{scan}m{i}_{j}",
                 Label=cls != "D",
                 ScanNr=scan,
                 ExpMass=500.25 + i,
-                ret_time=10.0 + 0.5 * i,
+                ret_time=10.0 + 0.5 * (i // 2 if chimeric else i),
                 filename=f"run{file_idx}.mzML",
                 f_key=key,
                 f2=float((r * 7919) % 101) / 10.0,
